@@ -43,6 +43,13 @@ OVERFLOW = [f'amount / {BIG} > 0', 'round(amount * 1e308 * 1e308) > 0', f'amount
             'round(1e308 * 10) == 1', f'abs(amount) % {BIG} == 0.5']
 ILL_VALUE = ['field.nope', 'extract("(")', 'description + 1', 'next(r for r in rows)', 'unknown_var', 'amount.upper()',
              'rows[9].item', 'split(description, 1, 2)', 'regex_replace(description, "(", "")', 'len(5)']
+# expressions the loader does not look at (dynamic tag texts are parsed when the rule first matches): syntax errors and every
+# node kind / operator outside the language must surface as an expression error for that tag only
+TAG_ONLY_ILL = ['amount // 10', 'amount ** 2', 'amount | 1', 'amount & 1', 'amount ^ 1', 'amount << 1', 'amount >> 1', '~1', '+amount',
+                'amount is None', 'amount is not None', 'lambda: 1', '{1: 2}', '{1}', "f'{amount}'", '*rows', 'rows[0:1]',
+                'amount @ 1', '(1, 2)', '...', "b'x'", '1j', 'amount +', ')(', 'a b', '1 +* 2', 'import os', 'x = 1', '',
+                ' ', '"unterminated', 'description.', '.upper()', 'field..memo', 'amount >', 'not', '[r for r in]',
+                '__import__("os")', 'amount if', 'a.b.c.d.e', '0x', '1e999', '1_0', 'rows[', '{{amount}}']
 GOOD_VALUE = ['extract("#(\\\\d+)")', 'source', 'uppercase(source)', 'split(description, " ", 0)', '"static"', 'field.memo']
 DESCS = ['NETFLIX.COM #1234', 'UBER EATS 7781', 'AMZN MKTP US', 'COFFEE SHOP - SEATTLE', 'WHOLE FOODS #22', 'LYFT RIDE', 'HULU']
 
@@ -266,6 +273,17 @@ def main(tier):
                                  'tags': ['ok', '{' + rnd.choice(ILL_VALUE) + '}'], 'lets': [('w', rnd.choice(ILL_VALUE))],
                                  'fields': [('f', rnd.choice(ILL_VALUE))]}],
                       'txns': [{'description': 'NETFLIX.COM #1234', 'amount': -15.99, 'date': '2025-02-28', 'source': 'Amex', 'field': None}]})
+    for bad in TAG_ONLY_ILL + ILL_VALUE + LAZY_VALUE:
+        for pos in (0, 1):
+            tags = ['ok', '{' + bad + '}'] if pos else ['{' + bad + '}', 'ok']
+            cases.append({'kind': 'engine', 'modes': ['first_match', 'most_specific'], 'variables': [], 'transforms': [],
+                          'data_sources': {'rows': [{'item': 'Book', 'amount': 12.5}], 'empty': []},
+                          'rules': [{'name': 'Tagger', 'match': 'amount != 0', 'tags': tags},
+                                    {'name': 'Good', 'match': 'contains("NETFLIX")', 'category': 'Subs', 'subcategory': 'Stream',
+                                     'tags': ['{' + bad + '}', 'good{' + bad + '}x', '{source}']},
+                                    {'name': 'Late', 'match': 'true', 'tags': ['late']}],
+                          'txns': [{'description': 'NETFLIX.COM #1234', 'amount': -15.99, 'date': '2025-02-28', 'source': 'Amex', 'field': None},
+                                   {'description': 'NETFLIX.COM #1234', 'amount': 20.0, 'date': None, 'source': 'Amex', 'field': {'memo': 'm'}}]})
     for nm, reader in [('amount', 'amount > 100'), ('big', 'big'), ('seen', 'seen == 1 or contains("COFFEE")')]:
         for tail in ['contains(5)', 'amount > "x"', 'field.nope == 1']:
             for with_var in (True, False):
